@@ -301,7 +301,29 @@ fn main() {
     )
     .unwrap();
 
+    // watchdog: a request that does not return within PTABLES_WATCHDOG seconds (default 60) of wall time is reported
+    // as hung, with its index, and the process ends (the judgement never comes from the caller's process timeout)
+    static HEART_OP: std::sync::atomic::AtomicUsize = std::sync::atomic::AtomicUsize::new(usize::MAX);
+    static HEART_T: std::sync::atomic::AtomicU64 = std::sync::atomic::AtomicU64::new(0);
+    let wd_start = std::time::Instant::now();
+    {
+        let limit: u64 = std::env::var("PTABLES_WATCHDOG").ok().and_then(|x| x.parse().ok()).unwrap_or(60);
+        std::thread::spawn(move || loop {
+            std::thread::sleep(std::time::Duration::from_millis(500));
+            let op = HEART_OP.load(std::sync::atomic::Ordering::Acquire);
+            let t = HEART_T.load(std::sync::atomic::Ordering::Acquire);
+            if op != usize::MAX && wd_start.elapsed().as_secs() > t + limit {
+                let msg = format!("{{\"hung\":{},\"seconds\":{}}}\n", op, limit);
+                unsafe {
+                    libc::write(1, msg.as_ptr() as *const libc::c_void, msg.len());
+                    libc::_exit(0);
+                }
+            }
+        });
+    }
     for (idx, w) in ops.iter().enumerate() {
+        HEART_T.store(wd_start.elapsed().as_secs(), std::sync::atomic::Ordering::Release);
+        HEART_OP.store(idx, std::sync::atomic::Ordering::Release);
         let mut w: Vec<String> = w.clone();
         // optional prefix: "fail <n>" = make the n-th descriptor allocation of this request fail
         let mut inject: Option<usize> = None;
@@ -641,6 +663,7 @@ fn main() {
         )
         .unwrap();
     }
+    HEART_OP.store(usize::MAX, std::sync::atomic::Ordering::Release);
     drop(out);
     let _ = std::fs::remove_dir_all(&root);
 }
